@@ -158,7 +158,10 @@ def slot_ctor_clean(run, fx, rule):
         if e['k'] == 'BinaryOperator' and e['op'] == '=':
             l = f.strip(e['c'][0])
             if l['k'] == 'MemberExpr' and l.get('dk') == 'Field' and f.render(f.N(l['c'][0])) == 'this':
-                inits.setdefault(l['d'].split('::')[-1], e)
+                n_ = l['d'].split('::')[-1]
+                old = inits.get(n_)
+                if old is None or (old['k'] == 'Init' and (old.get('implicit') or old.get('init') is None)):
+                    inits[n_] = e
     pvids = {p_['vid'] for p_ in f.f.get('params') or []}
     missing, notnull = [], []
     for fld in rec['fields']:
@@ -171,6 +174,8 @@ def slot_ctor_clean(run, fx, rule):
             continue
         if '*' in (fld.get('t') or ''):
             iv = f.strip_all_casts(f.N(e['init'])) if e['k'] == 'Init' and e.get('init') is not None else (f.strip_all_casts(e['c'][1]) if e['k'] == 'BinaryOperator' else None)
+            while iv is not None and iv['k'] == 'BinaryOperator' and iv.get('op') == '=':      # a = b = NULL
+                iv = f.strip_all_casts(iv['c'][1])
             if iv is None:
                 missing.append(n)
             elif not (iv.get('v') == 0 or iv['k'] in ('CXXNullPtrLiteralExpr', 'GNUNullExpr') or (iv['k'] == 'DeclRefExpr' and iv.get('vid') in pvids)):
